@@ -192,17 +192,30 @@ def admits (n : Nat) (p : Option Policy) : Bool :=
   | none => true
   | some p => !(p.name == "root") || n == 1
 
-theorem foldl_insertPolicy_error (n : Nat) (ps : List (Option Policy)) (e : ACLErr) :
-    ps.foldl (insertPolicy n) (.error e) = .error e := by
+theorem foldl_insertPolicy_error (n : Nat) (now : Int) (ps : List (Option Policy)) (e : ACLErr) :
+    ps.foldl (insertPolicy n now) (.error e) = .error e := by
   induction ps with
   | nil => rfl
   | cons p ps ih => simp only [List.foldl_cons, insertPolicy, ih]
 
-theorem rulesOf_cons_none (ps : List (Option Policy)) : rulesOf (none :: ps) = rulesOf ps := by
+theorem rulesOf_cons_none (now : Int) (ps : List (Option Policy)) : rulesOf now (none :: ps) = rulesOf now ps := by
   simp [rulesOf]
 
-theorem rulesOf_cons_some (p : Policy) (ps : List (Option Policy)) : rulesOf (some p :: ps) = p.paths ++ rulesOf ps := by
+theorem rulesOf_cons_some (now : Int) (p : Policy) (ps : List (Option Policy)) :
+    rulesOf now (some p :: ps) = p.paths.filter (liveAt now) ++ rulesOf now ps := by
   simp [rulesOf]
+
+/-- skipping expired stanzas inside the loop = looping over the stanzas that count at `now` -/
+theorem foldl_insertLive (now : Int) (rules : List PathRule) (a : ACL) :
+    rules.foldl (insertLive now) a = (rules.filter (liveAt now)).foldl insertRule a := by
+  induction rules generalizing a with
+  | nil => rfl
+  | cons r rules ih =>
+    simp only [List.foldl_cons, List.filter_cons, insertLive, liveAt]
+    by_cases h : expiredAt now r.expiration = true
+    · simp only [h, if_true, Bool.not_true, Bool.false_eq_true, if_false]; exact ih a
+    · have h' : expiredAt now r.expiration = false := by simpa using h
+      simp only [h', Bool.false_eq_true, if_false, Bool.not_false, if_true, List.foldl_cons]; exact ih _
 
 theorem hasRoot_cons_none (ps : List (Option Policy)) : hasRoot (none :: ps) = hasRoot ps := by
   simp [hasRoot]
@@ -211,16 +224,18 @@ theorem hasRoot_cons_some (p : Policy) (ps : List (Option Policy)) :
     hasRoot (some p :: ps) = (p.name == "root" || hasRoot ps) := by
   simp [hasRoot]
 
-theorem insertPolicy_ok_none (n : Nat) (a : ACL) : insertPolicy n (.ok a) none = .ok a := rfl
+theorem insertPolicy_ok_none (n : Nat) (now : Int) (a : ACL) : insertPolicy n now (.ok a) none = .ok a := rfl
 
-theorem insertPolicy_ok_some (n : Nat) (a : ACL) (p : Policy) :
-    insertPolicy n (.ok a) (some p) =
+theorem insertPolicy_ok_some (n : Nat) (now : Int) (a : ACL) (p : Policy) :
+    insertPolicy n now (.ok a) (some p) =
       if p.name = "root" ∧ n ≠ 1 then .error .rootWithOthers
-      else .ok (p.paths.foldl insertRule (if p.name = "root" then setRoot a true else a)) := rfl
+      else .ok ((p.paths.filter (liveAt now)).foldl insertRule (if p.name = "root" then setRoot a true else a)) := by
+  rw [← foldl_insertLive]
+  rfl
 
-theorem foldl_insertPolicy_ok (n : Nat) (ps : List (Option Policy)) (a0 : ACL) :
-    ps.foldl (insertPolicy n) (.ok a0) =
-      if ps.all (admits n) then .ok (setRoot ((rulesOf ps).foldl insertRule a0) (a0.root || hasRoot ps))
+theorem foldl_insertPolicy_ok (n : Nat) (now : Int) (ps : List (Option Policy)) (a0 : ACL) :
+    ps.foldl (insertPolicy n now) (.ok a0) =
+      if ps.all (admits n) then .ok (setRoot ((rulesOf now ps).foldl insertRule a0) (a0.root || hasRoot ps))
       else .error .rootWithOthers := by
   induction ps generalizing a0 with
   | nil => simp [rulesOf, hasRoot, setRoot]
@@ -256,8 +271,8 @@ theorem attachable_eq (ps : List (Option Policy)) : attachable ps = ps.all (admi
   congr 1
 
 /-- `NewACL` succeeds exactly on attachable policy lists and then is the fold of `insertRule` over all stanzas -/
-theorem newACL_eq (ps : List (Option Policy)) :
-    newACL ps = if attachable ps then .ok (setRoot ((rulesOf ps).foldl insertRule {}) (hasRoot ps))
+theorem newACL_eq (now : Int) (ps : List (Option Policy)) :
+    newACL now ps = if attachable ps then .ok (setRoot ((rulesOf now ps).foldl insertRule {}) (hasRoot ps))
       else .error .rootWithOthers := by
   unfold newACL
   rw [foldl_insertPolicy_ok, attachable_eq]
